@@ -427,6 +427,21 @@ static void codec_one(const S& s, Rng& rng, bool log) {
     EXPECT("hexdump_lc(vector<uint8_t>)", tlx::hexdump_lc(std::vector<std::uint8_t>(s.begin(), s.end())), hl, a);
     EXPECT("parse_hexdump(hexdump)", tlx::parse_hexdump(SV(hu)), s, a);
     EXPECT("parse_hexdump(hexdump_lc)", tlx::parse_hexdump(SV(hl)), s, a);
+    {   // hexdump_sourcecode(): a C array definition whose 0xHH tokens are the bytes, 16 per line
+        S src = tlx::hexdump_sourcecode(SV(s), "name_of_array");
+        S back, head = "const std::uint8_t name_of_array[" + std::to_string(s.size()) + "] = {\n";
+        bool ok = src.compare(0, head.size(), head) == 0 && src.size() >= head.size() + 4 && src.compare(src.size() - 4, 4, "\n};\n") == 0;
+        size_t per_line = 0, max_line = 0;
+        for (size_t i = head.size(); ok && i + 4 <= src.size() - 3;) {
+            if (src[i] == '\n') { per_line = 0; ++i; continue; }
+            if (src[i] == ',') { ++i; continue; }
+            if (src.compare(i, 2, "0x") != 0) { ok = false; break; }
+            S byte = tlx::parse_hexdump(SV(src).substr(i + 2, 2));
+            if (byte.size() != 1) { ok = false; break; }
+            back += byte; i += 4; max_line = std::max(max_line, ++per_line);
+        }
+        EXPECT("hexdump_sourcecode", (ok && max_line <= 16) ? back : S("<malformed: ") + src.substr(0, 120) + ">", s, a);
+    }
     if (log) { log_record("hexdump", s, hu, 0); log_record("hexdump_lc", s, hl, 0); }
     // base64
     S e0 = tlx::base64_encode(sl.sv.data(), s.size());
